@@ -53,12 +53,12 @@ META = {
   note="",
   technique="Coq proof (contract monitor as executable predicate; producers' outputs satisfy it) + monitor run on /repo's events"),
  "C10": dict(
-  thm="Theorems (coq/Properties/C10.v): C10_wrap (a wrapped plain visitor receives exactly `expand e`), C10_expansion_same_value, C10_expansion_wellformed; the unfolder model runs on the expansion by construction. Encoder state equality is being added (in-context round-trip theorems of C07 applied to a tree and its expansion).",
+  thm="Theorems (coq/Properties/C10.v): C10_wrap (a wrapped plain visitor receives exactly `expand e`), C10_expansion_same_value, C10_expansion_wellformed; C10_cbor_enc (from ANY encoder state a tree and its expansion both succeed, restore the nesting state and append bytes decoding to the same value), C10_json_enc, C10_ubj_enc_state, C10_ubj_same_value_iff and C10_ubj_typed_h_refuted (the recorded finding as a theorem with witness); C10_unfold_expand, C10_unfold_byref, C10_unfold_tree (the unfolder model, every target type: extended = expanded, by-reference = by-value).",
   tie="Run: each extended event with generated contents inside generated contexts, followed by further events, through the three encoders of /repo both as extended call and as expansion: same decoded values, same stack depth, same success; adapters vs `expand`; unfolder targets unfolded both ways.",
   note="One recorded finding (UBJSON typed uint arrays needing 'H'). ",
   technique="Coq proof (adapter = expansion; state equality) + differential runs extended vs expanded"),
  "C11": dict(
-  thm="Theorems (coq/Properties/C11.v): C11_fold_refuses_unsupported (an unsupported static type is refused before any event), C11_supported_iff_compiles. The identity Fold;Unfold on the models is in progress.",
+  thm="Theorems (coq/Properties/C11.v): C11_fold_refuses_unsupported (an unsupported static type is refused before any event), C11_supported_iff_compiles. C11_direct_partial, C11_direct_struct_partial (PARTIAL identity, direct route: every well-typed value of every type built from scalars, pointers, slices, string-keyed maps, named versions of these, and of every struct with such fields under any names / - / omitempty / unexported: if Fold accepts, unfolding into a zero target completes with a deep_eq value; nested structs, inline and interface fields are decided by the run-time part only); C11_struct_instance (non-vacuity).",
   tie="Run: generated (type, value) pairs are folded and unfolded into a fresh variable of the same type by /repo, directly and through the JSON, UBJSON and CBOR encoder+parser; the result must be deep-equal (extracted deep_eq/omit_view of Gotype/UnfoldSpec.v: nil and empty slices/maps identified, dropped fields zero) to the original, a type the specification calls unsupported must be refused by an error, never a crash; the direct route must also equal the composition of the fold and unfold models.",
   note="One recorded finding (uint64 above MaxInt64 through UBJSON). Self-referential types are exercised by a hand-written catalogue in a child process. ",
   technique="Coq proof (fold model composed with unfold model) + extracted-model correspondence + deep-equality oracle"),
@@ -68,12 +68,12 @@ META = {
   note="User folders, Folder and IsZeroer implementations are not generated. ",
   technique="Coq proof (fold model vs documented mapping) + extracted-model correspondence + direct oracle (spec_fold)"),
  "C13": dict(
-  thm="Theorems (coq/Properties/C13.v): see the file.",
+  thm="Theorems (coq/Properties/C13.v): C13_generic / C13_generic_in_context - for EVERY well-formed tree (any nesting, announced or unknown lengths, element-type hints, extended events, strings/keys by value or by reference) unfolding into interface{} yields exactly `generic t`, the L0 definition of the stream's value as generic Go data, whatever the target held and whatever follows; C13_skip / C13_skip_incomplete / C13_skip_exact_or_more - the value of an unknown member, of every kind and depth, is consumed exactly and as a whole with the fuel the struct unfolder passes, an incomplete one asks for more and never fails; C13_byref_irrelevant (every target type); C13_conv_fits. The typed-target sentence (fields assigned / untouched) is proved for flat structs as part of C11_direct_struct_partial and otherwise decided by the run-time part.",
   tie="Run: generated (target type, initial target value, event stream) triples - streams from Fold of the same or another type, objects with extra members of every value kind and depth, raw streams; by-value and by-reference delivery, announced and unknown lengths - are unfolded by /repo; the verdict and the final target value must equal those of the extracted unfolder model (Gotype/Unfold.v); stack depths (hook) must be idle after a complete document.",
   note="User unfolders / Expander are not generated; float -> integer conversions outside the target range (implementation-defined in Go) are not compared. ",
   technique="Coq proof + extracted-model correspondence on final target values"),
  "C14": dict(
-  thm="Theorems (coq/Properties/C14.v): see the file.",
+  thm="Theorems (coq/Properties/C14.v): C14_allocation_bound(_top) - for EVERY target type, previous content and event list (matching or not) the size of the result is at most the size of the previous content plus W(type) x events consumed; announced lengths do not occur in the bound (C14_allocation_iface: 2049 per event; C14_slice_of_scalars; C14_lying_length_example: 10^12 announced, 4096 allocated); C14_document_exact, C14_after_done_refused (a completed document leaves nothing pending). The model is total (no crash outcome): no-panic is decided by the guarded runs.",
   tie="Run: every generated (stream, target type) pair incl. shape mismatches at every depth and documents abandoned at a random event, under deadline/recover/ulimit -v: /repo must return an error or succeed exactly as the unfolder model does, never panic or hang; unsupported target types must be refused by SetTarget.",
   note="The memory-safety half (no write outside the target through unsafe) is runtime behaviour the model cannot exhibit: partial. ",
   technique="Coq proof (total unfolder model; allocation bound) + guarded differential runs"),
@@ -88,7 +88,7 @@ META = {
   note="",
   technique="Coq proof (write/visitor-error propagation invariant by induction over call sequences) + fault injection on /repo"),
  "C17": dict(
-  thm="Theorems (coq/Properties/C17.v): completing a document restores the nesting state: C17_cbor_enc_idle, C17_json_enc_idle, C17_json_enc_any_state, C17_ubj_enc_idle; C17_cbor_parser_idle (the parser IS the initial parser after any accepted input).",
+  thm="Theorems (coq/Properties/C17.v): completing a document restores the nesting state: C17_cbor_enc_idle, C17_json_enc_idle, C17_json_enc_any_state, C17_ubj_enc_idle; C17_cbor_parser_idle (the parser IS the initial parser after any accepted input); C17_unfold_exact, C17_unfold_rest_independent, C17_unfold_sequence (the unfolder consumes exactly the document, independent of what follows).",
   tie="Run: histories of complete documents on one reused /repo instance (parsers in Parse and Write mode, encoders, transcoding chains, iterator, unfolder) followed by a probe, compared with a fresh instance and with the model; stack depths read through the verif hooks must be idle.",
   note="",
   technique="Coq proof (stack discipline by induction over trees) + reuse-vs-fresh differential runs with depth hooks"),
